@@ -5,10 +5,12 @@ package coll
 
 import (
 	"fmt"
+	"hash/crc32"
 	"math"
 	"reflect"
 	"sort"
 	"strings"
+	"sync"
 	"verif/engine/evid"
 
 	"github.com/whatap/golib/io"
@@ -162,6 +164,80 @@ func StringKeys(hashCode bool, n int) []string {
 	return ks[:n]
 }
 
+// Twin returns a printable string different from s with the same full 32-bit hash (CRC-32 forged by
+// a four-byte suffix, or the Java-style hash code by the classic "Aa"/"BB" exchange): two keys that
+// only a comparison of the keys themselves can tell apart. The hashes are the reference ones, not the
+// library's.
+var twins = map[string]string{}
+var twinsMu sync.Mutex
+
+func Twin(s string, hashCode bool) string {
+	twinsMu.Lock()
+	defer twinsMu.Unlock()
+	if t, ok := twins[s]; ok {
+		return t
+	}
+	var t string
+	if hashCode {
+		jh := func(x string) int32 {
+			var h int32
+			for i := 0; i < len(x); i++ {
+				h = 31*h + int32(x[i])
+			}
+			return h
+		}
+		// change two adjacent characters (c, d) into (c+1, d-31): same polynomial value
+		b := []byte(s)
+		for i := 0; i+1 < len(b); i++ {
+			if b[i] < 126 && b[i+1] >= 32+31 {
+				b[i]++
+				b[i+1] -= 31
+				break
+			}
+		}
+		t = string(b)
+		if t == s || jh(t) != jh(s) {
+			panic("Twin: no hash-code twin for " + s)
+		}
+	} else {
+		tab := crc32.IEEETable
+		var rev [256]byte
+		for i := 0; i < 256; i++ {
+			rev[tab[i]>>24] = byte(i)
+		}
+		want := ^crc32.ChecksumIEEE([]byte(s))
+		for n := 0; t == ""; n++ {
+			if n > 1_000_000 {
+				panic("Twin: no printable CRC twin for " + s)
+			}
+			prefix := []byte(fmt.Sprintf("t%d-", n))
+			var idx [4]byte
+			x := want
+			for i := 3; i >= 0; i-- {
+				idx[i] = rev[x>>24]
+				x = (x ^ tab[idx[i]]) << 8
+			}
+			r := ^crc32.ChecksumIEEE(prefix)
+			out := append([]byte{}, prefix...)
+			ok := true
+			for i := 0; i < 4; i++ {
+				c := byte(r) ^ idx[i]
+				if c < 0x21 || c > 0x7e || c == '"' || c == '\\' {
+					ok = false
+					break
+				}
+				out = append(out, c)
+				r = (r >> 8) ^ tab[idx[i]]
+			}
+			if ok && crc32.ChecksumIEEE(out) == crc32.ChecksumIEEE([]byte(s)) && string(out) != s {
+				t = string(out)
+			}
+		}
+	}
+	twins[s] = t
+	return t
+}
+
 // Keys returns the key alphabet of the given size for a key type: colliding keys first.
 func Keys(d *Desc, n int) []reflect.Value {
 	t := d.KeyT
@@ -176,8 +252,10 @@ func Keys(d *Desc, n int) []reflect.Value {
 			out = append(out, reflect.ValueOf(k))
 		}
 	case strT:
+		// the second key has the same full hash as the first (only comparing the keys themselves tells
+		// them apart), the others share their bucket in the 101- and the 203-bucket table
 		ks := StringKeys(d.HashCode, 4)
-		for _, k := range []string{ks[0], ks[1], "", ks[2], "zz-other", ks[3]} {
+		for _, k := range []string{ks[0], Twin(ks[0], d.HashCode), "", ks[1], "zz-other", ks[2]} {
 			out = append(out, reflect.ValueOf(k))
 		}
 	case linkedKeyT:
